@@ -1187,6 +1187,18 @@ void mmd_export_token_opendocument(DString * out, const char * source, token * t
 			print_const("[#");
 			break;
 
+		case BRACKET_FOOTNOTE_LEFT:
+			print_const("[^");
+			break;
+
+		case BRACKET_GLOSSARY_LEFT:
+			print_const("[?");
+			break;
+
+		case BRACKET_IMAGE_LEFT:
+			print_const("![");
+			break;
+
 		case BRACKET_LEFT:
 			print_const("[");
 			break;
@@ -1197,6 +1209,9 @@ void mmd_export_token_opendocument(DString * out, const char * source, token * t
 
 		case BRACKET_VARIABLE_LEFT:
 			print_const("[\%");
+			break;
+
+		case CODE_FENCE:
 			break;
 
 		case COLON:
